@@ -88,10 +88,10 @@ func oracle(s *scen, w *world.World) error {
 			continue // transport error: no response
 		}
 		// a response the discard policy rejects is never written
-		if !f.Accept && f.Written >= 0 {
+		if !f.Policy && f.Written >= 0 {
 			return fmt.Errorf("rejected-written: the %d response of %s (attempt %d) is rejected by the discard policy but was written", f.Status, f.URL, f.Attempt)
 		}
-		if !f.Accept {
+		if !f.Policy {
 			continue
 		}
 		// byte-exact: the record holds what crossed the connection, so the crawler must have read
@@ -162,6 +162,10 @@ func scenarios(tier string) []scen {
 			{URL: H + "/cf.png", Kind: "status", Code: 403, Header: map[string]string{"cf-mitigated": "challenge"}}, {URL: H + "/a.png", Kind: "bin"}}},
 		{Name: "page+plain 403 (accepted)", Seeds: []string{H + "/page"}, Nodes: []world.Node{page(H+"/page", H+"/forbidden.png"),
 			{URL: H + "/forbidden.png", Kind: "status", Code: 403}}},
+		// a discard list that holds codes below 400 as well: the redirect and the 404 are followed / final, none is written
+		{Name: "discard-status 301,404,429: page+redirect asset+404", Seeds: []string{H + "/page"}, Nodes: []world.Node{page(H+"/page", H+"/ra", H+"/missing.png"),
+			{URL: H + "/ra", Kind: "redirect", Location: H + "/ra.png"}, {URL: H + "/ra.png", Kind: "bin"}, {URL: H + "/missing.png", Kind: "status", Code: 404}}},
+		{Name: "discard-status 200: page (nothing of it is written)", Seeds: []string{H + "/page"}, Nodes: []world.Node{page(H+"/page", H+"/gone.png"), {URL: H + "/gone.png", Kind: "status", Code: 410}}},
 		{Name: "seed answers 429 for good", Seeds: []string{H + "/limited"}, Nodes: []world.Node{{URL: H + "/limited", Kind: "status", Code: 429}}},
 		{Name: "two seeds", Seeds: []string{H + "/p1", H + "/p2"}, Nodes: []world.Node{page(H+"/p1", H+"/a.png"), page(H+"/p2", H+"/b.png"), {URL: H + "/a.png", Kind: "bin"}, {URL: H + "/b.png", Kind: "bin"}}},
 	}
@@ -174,7 +178,13 @@ func scenarios(tier string) []scen {
 				}
 				p = P - 1
 			}
-			out = append(out, scen{Def: d, Opt: world.Options{Workers: ca[0], MaxConcurrentAssets: ca[1], MaxRetry: 1, MaxRedirect: 2}, P: p})
+			opt := world.Options{Workers: ca[0], MaxConcurrentAssets: ca[1], MaxRetry: 1, MaxRedirect: 2}
+			if strings.HasPrefix(d.Name, "discard-status 301") {
+				opt.DiscardStatus = []int{301, 404, 429}
+			} else if strings.HasPrefix(d.Name, "discard-status 200") {
+				opt.DiscardStatus = []int{200}
+			}
+			out = append(out, scen{Def: d, Opt: opt, P: p})
 		}
 	}
 	return out
@@ -255,7 +265,7 @@ func main() {
 		"explanation": "part A (ordering): real pipeline on fake sites incl. responses the real discard hook chain rejects (429, 403+cf-mitigated) and retried failures; the WARC write of every response is its own scheduled thread started at body close; every schedule with at most P deviations plus at most one slow write (a write that takes 5 virtual minutes: F<=1); oracle at each finish message: every accepted response fetched for the seed has been written, no rejected response is ever written",
 	}, []string{
 		"the fake writer signals feedback only after marking the response written (that the real library does so after flushing the record is decided by part B on the real writer)",
-		"discard decisions are those of the real hook chain built by discard.NewBuilder().AddDefaultHooks()",
+		"the fake writer writes what the real hook chain (discard.NewBuilder().AddDefaultHooks()) lets through; whether the policy accepts a response is computed independently from --warc-discard-status and the cf-mitigated header",
 	}, hkit.Violations())
 	fmt.Printf("C02 %s (part A): %d scenarios, %d executions, %d states, %d transitions, exhaustive=%v\n", a.Tier, len(ss), total.Executions, total.States, total.Transitions, total.Exhaustive)
 	hkit.Exit()
